@@ -149,10 +149,8 @@ def make_write(case):
 
     def run(ctx):
         from vf.harness.c01 import Builder
-        b = Builder(ctx, cs, cfg)
+        b = Builder(ctx, cs, cfg, in_range=True)
         v, refv = b.build(T, cls)
-        for _, x, lo, hi in b.leaves:
-            ctx.constrain(R.And(x >= lo, x <= hi))
         try:
             o = v.dumps()
         except Exception as e:  # noqa: BLE001
@@ -182,8 +180,9 @@ def make_write(case):
 def cases(tier, seed):
     cfgs = families.PAIRWISE if tier == "quick" else list(G.configs())
     from vf.harness.c01 import constructible
-    for label, T in gen(tier, seed):
-        for cfg in cfgs:
+    net = {"endian": "!", "align": False, "compiled": False, "pointer": "uint64"}
+    for i, (label, T) in enumerate(gen(tier, seed)):
+        for cfg in list(cfgs) + ([net, dict(net, compiled=True, align=True)] if tier != "quick" or i % 4 == 0 else []):
             yield {"label": label, "T": T, "cfg": cfg, "nbytes": H.input_len(T, cfg)}
             if constructible(T) and not cfg["compiled"]:
                 yield {"label": label + "#write", "T": T, "cfg": cfg, "make": "make_write"}
@@ -196,7 +195,7 @@ def make_unit(case):
     from dissect.cstruct.bitbuffer import BitBuffer
     nbytes, endian, k, mode, signed = case["nbytes"], case["endian"], case["k"], case["mode"], case.get("signed", False)
     nb = 8 * nbytes
-    big = endian == ">"
+    big = endian in (">", "!")   # network order is big endian
 
     def run(ctx):
         cs = cstruct(endian=endian)
@@ -262,7 +261,7 @@ _struct_cases = cases
 
 def cases(tier, seed):  # noqa: F811
     for nbytes in (1, 2, 4, 8):
-        for endian in "<>":
+        for endian in "<>!":
             for k in (1, 2, 3) if tier == "quick" else (1, 2, 3, 4):
                 for mode in ("read", "write"):
                     for signed in (False, True):
